@@ -253,6 +253,9 @@ func (c *Conn) readFrameHeader(ctx context.Context) (header, error) {
 		case <-ctx.Done():
 			return header{}, ctx.Err()
 		default:
+			if errors.Is(err, errNegativePayloadLength) {
+				c.writeError(StatusProtocolError, err)
+			}
 			return header{}, err
 		}
 	}
